@@ -94,7 +94,8 @@ def run(ck, ctx):
         ck.ob("C24.2", "inside-open-block", len([d for d in opn if d.startswith("discr(Option::")]) >= 2,
               "recording is guarded by the open-block cursor and by the presence of debug info: %s" % opn, where)
     # lines vector length = count_lines
-    cl = F.bodies.get(ST_NEW + "::{closure#0}")
+    cls = [F.bodies[c] for c in F.children.get(ST_NEW, []) if "from_elem" in nf.render(nf.cases(F, c) or [])]
+    cl = cls[0] if len(cls) == 1 else None
     if ck.anchor("C24.2", "debug_sym closure", cl):
         got = nf.render(nf.cases(F, cl.path))
         ck.ob("C24.2", "vector-len", "from_elem(Option::None(), SourceInfo::count_lines(" in got and "SourceInfo::new(arg2)" in got,
@@ -110,27 +111,25 @@ def run(ck, ctx):
         ck.ob("C24.3", "new:condense", ok, "runs of Some(addr) are collected in order and stored under key (index of the first None after the run) - (run length): pushes %s inserts %s" % (pushes, ins), "src/asm.rs:%s" % nb.line)
         nf.expect(ck, F, "C24.3", "new:result", LM + "new", ["[discr(next(into_iter(Iterator::enumerate(into_iter(arg1))))) in [0,0]] => LineSymbolMap::from_blocks(BTreeMap::new())"], "after the loop the blocks are validated by from_blocks")
     g = "next_back(BTreeMap::range(arg1.0, RangeToInclusive(arg2)))"
-    nf.expect(ck, F, "C24.3", "get", LM + "get",
-              ["[fail(%s)] => propagate(%s) ; [ok(%s)] => Option::copied(get(deref(try(%s).1), Sub(arg2, try(%s).0)))" % (g, g, g, g, g)],
-              "forward lookup: last block starting at or before the line, element line - start")
-    nf.expect(ck, F, "C24.3", "find", LM + "find", ["Iterator::find_map(BTreeMap::iter(arg1.0), {closure#0}(arg2))"], "reverse lookup searches every block (no element-dropping adaptor)")
-    nf.expect(ck, F, "C24.3", "find:block", LM + "find::{closure#0}", ["Option::map(Result::ok(binary_search(deref(arg2.1), @entry{arg2})), {closure#0}(arg2.0))"], "per block: binary search for the address")
-    nf.expect(ck, F, "C24.3", "find:line", LM + "find::{closure#0}::{closure#0}", ["add(arg1.0, arg2)", "Add(deref(arg1.0), arg2)"], "found offset o gives line start + o")
-    nf.expect(ck, F, "C24.3", "iter", LM + "iter", ["Iterator::flat_map(LineSymbolMap::block_iter(arg1), {closure#0}())"], "line listing flattens every block")
-    nf.expect(ck, F, "C24.3", "iter:block", LM + "iter::{closure#0}", ["Iterator::map(Iterator::enumerate(iter(arg2.1)), {closure#0}(arg2.0))"], "per block: enumerate its words")
-    nf.expect(ck, F, "C24.3", "iter:pair", LM + "iter::{closure#0}::{closure#0}", ["tuple(Add(arg1.0, arg2.0), arg2.1)"], "pair = (start + offset, address)")
-    nf.expect(ck, F, "C24.3", "block_iter", LM + "block_iter", ["Iterator::map(BTreeMap::iter(arg1.0), {closure#0}())"], "block listing maps every block")
-    nf.expect(ck, F, "C24.3", "block_iter:pair", LM + "block_iter::{closure#0}", ["tuple(arg2.0, Vec::as_slice(arg2.1))"], "block = (start line, words)")
+    nf.expect_deep(ck, F, "C24.3", "get", LM + "get",
+                   ["[fail(%s)] => propagate(%s) ; [ok(%s)] => Option::copied(get(deref(try(%s).1), Sub(arg2, try(%s).0)))" % (g, g, g, g, g)],
+                   "forward lookup: last block starting at or before the line, element line - start")
+    nf.expect_deep(ck, F, "C24.3", "find", LM + "find",
+                   ["Iterator::find_map(BTreeMap::iter(arg1.0), \u03bb[Option::map(Result::ok(binary_search(deref(arg2.1), @entry{arg2})), \u03bb[Add(arg1.0, arg2)](arg2.0))](arg2))"],
+                   "reverse lookup: every block is searched (no element-dropping adaptor) by binary search; a hit at offset o gives start + o")
+    nf.expect_deep(ck, F, "C24.3", "iter", LM + "iter",
+                   ["Iterator::flat_map(LineSymbolMap::block_iter(arg1), \u03bb[Iterator::map(Iterator::enumerate(iter(arg2.1)), \u03bb[tuple(Add(arg1.0, arg2.0), arg2.1)](arg2.0))]())"],
+                   "line listing: every word of every block as (start + offset, address)")
+    nf.expect_deep(ck, F, "C24.3", "block_iter", LM + "block_iter", ["Iterator::map(BTreeMap::iter(arg1.0), \u03bb[tuple(arg2.0, Vec::as_slice(arg2.1))]())"], "block listing: every block as (start line, words)")
     # --- C24.4 delegation
     d = "Option::as_ref(arg1.debug_symbols)"
-    nf.expect(ck, F, "C24.4", "DebugSymbols::lookup_line", "asm::DebugSymbols::lookup_line", ["LineSymbolMap::get(arg1.line_map, arg2)"], "delegates")
-    nf.expect(ck, F, "C24.4", "DebugSymbols::rev_lookup_line", "asm::DebugSymbols::rev_lookup_line", ["LineSymbolMap::find(arg1.line_map, arg2)"], "delegates")
-    nf.expect(ck, F, "C24.4", "SymbolTable::lookup_line", "asm::SymbolTable::lookup_line",
-              ["[fail(%s)] => propagate(%s) ; [ok(%s)] => DebugSymbols::lookup_line(try(%s), arg2)" % (d, d, d, d)], "None without debug symbols, else delegates")
-    nf.expect(ck, F, "C24.4", "SymbolTable::rev_lookup_line", "asm::SymbolTable::rev_lookup_line",
-              ["[fail(%s)] => propagate(%s) ; [ok(%s)] => DebugSymbols::rev_lookup_line(try(%s), arg2)" % (d, d, d, d)], "None without debug symbols, else delegates")
-    nf.expect(ck, F, "C24.4", "SymbolTable::line_iter", "asm::SymbolTable::line_iter", ["Iterator::flat_map(Option::iter(arg1.debug_symbols), {closure#0}())"], "lists the line map when present")
-    nf.expect(ck, F, "C24.4", "SymbolTable::line_iter:inner", "asm::SymbolTable::line_iter::{closure#0}", ["LineSymbolMap::iter(arg2.line_map)"], "delegates")
+    nf.expect_deep(ck, F, "C24.4", "DebugSymbols::lookup_line", "asm::DebugSymbols::lookup_line", ["LineSymbolMap::get(arg1.line_map, arg2)"], "delegates")
+    nf.expect_deep(ck, F, "C24.4", "DebugSymbols::rev_lookup_line", "asm::DebugSymbols::rev_lookup_line", ["LineSymbolMap::find(arg1.line_map, arg2)"], "delegates")
+    nf.expect_deep(ck, F, "C24.4", "SymbolTable::lookup_line", "asm::SymbolTable::lookup_line",
+                   ["[fail(%s)] => propagate(%s) ; [ok(%s)] => DebugSymbols::lookup_line(try(%s), arg2)" % (d, d, d, d)], "None without debug symbols, else delegates")
+    nf.expect_deep(ck, F, "C24.4", "SymbolTable::rev_lookup_line", "asm::SymbolTable::rev_lookup_line",
+                   ["[fail(%s)] => propagate(%s) ; [ok(%s)] => DebugSymbols::rev_lookup_line(try(%s), arg2)" % (d, d, d, d)], "None without debug symbols, else delegates")
+    nf.expect_deep(ck, F, "C24.4", "SymbolTable::line_iter", "asm::SymbolTable::line_iter", ["Iterator::flat_map(Option::iter(arg1.debug_symbols), \u03bb[LineSymbolMap::iter(arg2.line_map)]())"], "lists the line map when present")
     # who writes the line map: constructors only
     writers = []
     for p, bb in F.bodies.items():
@@ -139,8 +138,7 @@ def run(ck, ctx):
         for bi, si, s in bb.stmts():
             if s["k"] == "assign" and s["rv"]["k"] == "agg" and (s["rv"].get("adt") or "").endswith("asm::LineSymbolMap"):
                 writers.append(p)
-    allowed = {"asm::LineSymbolMap::from_blocks::{closure#3}"}
-    ck.ob("C24.3", "constructors", set(writers) <= allowed and writers, "LineSymbolMap values are built only in %s (allowed: validated constructor)" % sorted(set(writers)), "src/asm.rs")
+    ck.ob("C24.3", "constructors", writers and all(w.startswith("asm::LineSymbolMap::from_blocks::{closure#") for w in writers), "LineSymbolMap values are built only in %s (allowed: validated constructor)" % sorted(set(writers)), "src/asm.rs")
     ck.assume("`src` given to assemble_debug is the text the AST was parsed from (spans index that text)")
     ck.assume("strict increase inside a block follows from C24.1 + Cursor::shift (C02); .blkw 0 is rejected by the parser (C05)")
     ck.assume("not decided: the arithmetic consequence 'get(find(a)) == a' itself; it is argued from the normal forms (predecessor block + offset vs. binary search + start)")
